@@ -223,15 +223,24 @@ Fixpoint dec_codec (fuel : nat) (l : list Z) : codec * list Z :=
 Definition zopt (z : Z) : option Z := if z <? 0 then None else Some z.
 
 (* ops: [1 kind srv aux has cookie nxt facts...] Request (kind/srv/aux only tell the harness how to craft the cookie)
-        [2 u w] Upsert   [3 u] Remove   [4 d] Tick *)
+        [2 u w] Upsert   [3 u] Remove   [4 d] Tick   [2 u w quiet] / [3 u quiet]: no Servers() call after the change *)
 Definition decode_op (l : list Z) : op * list fact :=
   match l with
   | 1 :: _ :: _ :: _ :: has :: c :: nxt :: fs =>
       (Request (if has =? 0 then None else Some c) (zopt nxt) 0, chunk4 fs)
   | [2; u; _] => (Upsert u, [])
   | [3; u] => (Remove u, [])
+  | [2; u; _; _] => (Upsert u, [])      (* with a fourth / third field: the same call, but the harness does not call *)
+  | [3; u; _] => (Remove u, [])         (* Servers() afterwards when the field is non-zero (no observable) *)
   | [4; d] => (Tick d, [])
   | _ => (Nop, [])
+  end.
+
+Definition is_quiet (l : list Z) : bool :=
+  match l with
+  | [2; _; _; q] => negb (q =? 0)
+  | [3; _; q] => negb (q =? 0)
+  | _ => false
   end.
 
 Fixpoint run_ops (c : codec) (static : list fact) (s : st) (ops : list (list Z)) : list (list Z) :=
@@ -240,7 +249,7 @@ Fixpoint run_ops (c : codec) (static : list fact) (s : st) (ops : list (list Z))
   | l :: r =>
       let '(o, fs) := decode_op l in
       let '(s', out) := step (lib_of (fs ++ static)) c s o in
-      out :: run_ops c static s' r
+      (if is_quiet l then [] else out) :: run_ops c static s' r
   end.
 
 (* cfg: [variant (0 RoundRobin, 1 Rebalancer; same sticky prefix); start time ns; codec...; static facts...] *)
